@@ -22,27 +22,94 @@ fn main() {
     let mut out = String::new();
     let mut ids: Vec<String> = vec![];
     let mut groups: Vec<(String, String, Vec<String>)> = vec![];
-    let mut rest = clean.as_str();
-    while let Some(p) = rest.find("df!(") {
-        // make sure it is not e.g. "xdf!("
-        let before_ok = p == 0 || !rest.as_bytes()[p - 1].is_ascii_alphanumeric() && rest.as_bytes()[p - 1] != b'_';
-        let body_start = p + 4;
-        let end = rest[body_start..].find(");").expect("unterminated df!") + body_start;
-        let body = &rest[body_start..end];
-        rest = &rest[end + 2..];
-        if !before_ok {
+    // strip /* */ comments as well
+    let mut clean2 = String::new();
+    {
+        let mut rest = clean.as_str();
+        while let Some(p) = rest.find("/*") {
+            clean2.push_str(&rest[..p]);
+            match rest[p..].find("*/") {
+                Some(q) => rest = &rest[p + q + 2..],
+                None => {
+                    rest = "";
+                    break;
+                }
+            }
+        }
+        clean2.push_str(rest);
+    }
+    let bytes = clean2.as_bytes();
+    let mut pos = 0usize;
+    while let Some(off) = clean2[pos..].find("df!") {
+        let p = pos + off;
+        pos = p + 3;
+        // not part of a longer identifier (e.g. "xdf!"), and not the macro definition "macro_rules! df"
+        if p > 0 && (bytes[p - 1].is_ascii_alphanumeric() || bytes[p - 1] == b'_') {
             continue;
         }
+        // opening delimiter after optional whitespace: ( [ or {
+        let mut q = p + 3;
+        while q < bytes.len() && bytes[q].is_ascii_whitespace() {
+            q += 1;
+        }
+        if q >= bytes.len() {
+            break;
+        }
+        let (open, close) = match bytes[q] {
+            b'(' => (b'(', b')'),
+            b'[' => (b'[', b']'),
+            b'{' => (b'{', b'}'),
+            _ => continue,
+        };
+        // matching close delimiter (nesting-aware over all three kinds)
+        let mut depth = 0i32;
+        let mut end = q;
+        for (i, &c) in bytes.iter().enumerate().skip(q) {
+            if c == b'(' || c == b'[' || c == b'{' {
+                depth += 1;
+            } else if c == b')' || c == b']' || c == b'}' {
+                depth -= 1;
+                if depth == 0 {
+                    end = i;
+                    break;
+                }
+            }
+        }
+        let _ = (open, close);
+        if end <= q {
+            panic!("unterminated df! invocation");
+        }
+        let body = &clean2[q + 1..end];
+        pos = end + 1;
+        // split into `key: value` items at top-level commas
         let mut kv: Vec<(String, String)> = vec![];
-        for line in body.lines() {
-            let t = line.trim();
-            if t.is_empty() {
-                continue;
+        let mut item = String::new();
+        let mut d = 0i32;
+        for c in body.chars().chain(std::iter::once(',')) {
+            match c {
+                '(' | '[' | '{' => {
+                    d += 1;
+                    item.push(c);
+                }
+                ')' | ']' | '}' => {
+                    d -= 1;
+                    item.push(c);
+                }
+                ',' if d == 0 => {
+                    let t = item.trim();
+                    if let Some(cpos) = t.find(':') {
+                        let key = t[..cpos].trim().to_string();
+                        // normalise internal whitespace of the value
+                        let val = t[cpos + 1..].split_whitespace().collect::<Vec<_>>().join(" ");
+                        kv.push((key, val));
+                    }
+                    item.clear();
+                }
+                _ => item.push(c),
             }
-            let t = t.strip_suffix(',').unwrap_or(t);
-            if let Some(c) = t.find(':') {
-                kv.push((t[..c].trim().to_string(), t[c + 1..].trim().to_string()));
-            }
+        }
+        if kv.iter().all(|(k, _)| k != "id") {
+            continue; // e.g. the macro's own pattern
         }
         let get = |k: &str| kv.iter().find(|(a, _)| a == k).map(|(_, b)| b.clone());
         let id = get("id").expect("id");
